@@ -27,6 +27,7 @@ RULE += (' A share of the gridded files is the IOAPI-class object the CAMx gridd
 RULE += (" Writer case (one gridded case in five with >= 2 steps): the same IOAPI content saved, opened as a plain netCDF file (no format named), cut to its later steps with the generic slice and written through the 'ioapi' writer; the written file must be coherent, decode to the kept steps, and close its last interval with the step it states. Files from the CAMx reader include surface files with nz = 0 in the grid header.")
 RULE += (' IOAPI files may carry a variable without dimensions.')
 RULE += (" Half of the IOAPI files opened from disk are written here with netCDF4 directly the way the Models-3 I/O API library writes them (netCDF classic 64-bit offset, int32 header integers, float64 grid reals, float32 VGLVLS, TFLAG first, TSTEP the record dimension), independent of the library's writers.")
+RULE += (' One program in seven starts with a pointwise selection (index lists of one length for ROW and COL).')
 ASSUMPTIONS = [
     'a file with zero listed variables may keep VAR/TFLAG second axis of '
     'length 1 (the convention cannot express an empty axis)',
@@ -171,8 +172,22 @@ def run(spec, res):
                          'the library audit_meta fails %s' % (st.desc, abad),
                          op=st.op, audit=abad)
 
+        first = None
+        if spec['prog_seed'] % 7 == 3 and 'ROW' in f.dimensions and \
+                'COL' in f.dimensions:
+            # the program starts with a pointwise selection (index lists of
+            # one length for ROW and COL): the gridded variables move to a
+            # POINTS dimension and are no longer variables of the grid
+            r7 = np.random.default_rng([spec['prog_seed'], 707])
+            npt = int(r7.integers(1, 4))
+            pts = {k: {'l': [int(x) for x in r7.integers(
+                0, len(f.dimensions[k]), npt)]} for k in ('ROW', 'COL')}
+
+            def first(cur):
+                return ops.op_points(cur, pts)
+            res.facet('program:pointwise-first')
         ops.run_program(f, spec['prog_seed'], spec['nops'], allowed=ALLOWED,
-                        on_step=on_step)
+                        on_step=on_step, first=first)
         if spec['prog_seed'] % 5 == 2 and spec['file']['kind'] == 'grid' \
                 and spec['file']['nt'] >= 2 and not spec.get('disk') and \
                 spec['file'].get('via') != 'uamiv':
